@@ -88,12 +88,12 @@ def pVolumeWord (s : List Char) : Option (List Char) :=
     | none => some r
   | _ => none
 
-/-- `(percent + word) | (word + percent) + space` -/
+/-- `((percent + word) | (word + percent)) + space` -/
 def pWordPercent (word : List Char → Option (List Char)) (s : List Char) : Option (List Char) :=
   match pLit '%' s with
   | some r =>
     match word r with
-    | some r' => some r'
+    | some r' => some (skipWs r')
     | none =>
       -- first alternative failed after the '%': try the second from the start
       match word s with
@@ -175,7 +175,7 @@ def pUngrouped (T : Table) : Nat → List Char → Res Mix
           match pQty T massVolumeUnits fuel s with
           | .ok (ps, r) => .ok (.byMass ps, r)
           | .error e => .error e
-/-- `count + word_percent + mixture + ZeroOrMore(partsep+count+(word_percent|percent)+mixture)
+/-- `count + word_percent + mixture + ZeroOrMore(partsep+count+(word_percent|percent+space)+mixture)
     + partsep + mixture` -/
 def pPct (T : Table) (k : PctKind) : Nat → List Char → Res Mix
   | 0, _ => .error .fail
@@ -213,7 +213,7 @@ def pPctMore (T : Table) (k : PctKind) : Nat → List Char → Res PctParts
       | .ok (c, r2) =>
         let r3 := match pWordPercent k.word r2 with
           | some r => some r
-          | none => pLit '%' r2
+          | none => (pLit '%' r2).map skipWs
         match r3 with
         | none => .ok (.nil, s)
         | some r3 =>
